@@ -1784,7 +1784,11 @@ class _AssociationDict(_AssociationCollection[_VT], MutableMapping[_KT, _VT]):
     ) -> Union[_VT, _T]: ...
 
     def pop(self, __key: _KT, /, *arg: Any, **kw: Any) -> Union[_VT, _T]:
-        member = self.col.pop(__key, *arg, **kw)
+        if (arg or kw) and __key not in self.col:
+            # key not present; the default is returned as is, it is not
+            # an association object
+            return arg[0] if arg else kw["default"]  # type: ignore[no-any-return] # noqa: E501
+        member = self.col.pop(__key)
         return self._get(member)
 
     def popitem(self) -> Tuple[_KT, _VT]:
